@@ -33,3 +33,17 @@ package auth
 //@   at-call WriteString as ws: assert streq(arg1, res(trim)) && arg0 == arg(minus, 0)
 //@   at-call String as str: assert called(ws) && arg0 == arg(ws, 0)
 //@   ensures [result-is-builder] result.1 == nil ==> called(str) && streq(result.0, res(str))
+
+// ---- C08: the session server's answer ---------------------------------------------------------------------------
+// Only 200, 401 and 204 are answers at all (anything else is an error); the join counts as confirmed (online mode)
+// iff the status is 200 AND a body came back.
+//@ func (*authenticator).AuthenticateJoin
+//@   props C08
+//@   at-call Do as call
+//@   at-call ReadAll as rd: assert called(call) && res(call, 1) == nil
+//@   at-store onlineMode: assert [online-iff-200-with-a-body] value == (resp.StatusCode == 200 && len(body) != 0) && (resp.StatusCode == 200 || resp.StatusCode == 401 || resp.StatusCode == 204)
+//@   ensures [transport-error-is-an-error] called(call) && res(call, 1) != nil ==> result.1 != nil && result.0 == nil
+//@   ensures [unexpected-status-is-an-error] called(rd) && res(rd, 1) == nil && resp.StatusCode != 200 && resp.StatusCode != 401 && resp.StatusCode != 204 ==> result.1 != nil && result.0 == nil
+//@ func (*response).OnlineMode
+//@   props C08
+//@   ensures result == r.onlineMode
